@@ -168,12 +168,28 @@ theorem C20_kept_closed (defs : List (Def K)) (sel : String → Bool) (u d : Def
   obtain ⟨qv, gs, hs⟩ := hus
   exact List.mem_filterMap.2 ⟨u, hu, by simp [hs]⟩
 
-/-- **Errors, exactly.** For definitions as `DefGateSequence::try_new` validates them, the expansion returns
-error `e` iff `e` is the report of the first misuse met in depth-first program order (`ErrAt`). -/
-theorem C20_expand_err_iff (defs : List (Def K)) (sel : String → Bool) (hw : WellFormed defs)
+/-- **Errors, exactly** — for *all* definitions, including ones that bypassed `DefGateSequence::try_new`
+(`LocalErr.elem` covers the two defensive element-qubit errors): the expansion returns error `e` iff `e` is
+the report of the first misuse met in depth-first program order (`ErrAt`). -/
+theorem C20_expand_err_iff (defs : List (Def K)) (sel : String → Bool)
     (src : List (Instr K)) (e : Err) :
     expand defs sel src = .err e ↔ ErrAt defs sel [] src e :=
-  expandFuel_err_iff defs sel hw _ [] src e (by have := remaining_nil_le defs; omega)
+  expandFuel_err_iff defs sel _ [] src e (by have := remaining_nil_le defs; omega)
+
+/-- For definitions as `DefGateSequence::try_new` validates them, the two defensive element-qubit errors
+never occur (the element case of `LocalErr` is vacuous). -/
+theorem C20_wellFormed_no_elemErr (defs : List (Def K)) (hw : WellFormed defs) (d : Def K) (hd : d ∈ defs)
+    (qvars : List String) (gates : List (Gate K)) (hs : d.spec = .seq qvars gates) (e : Err) :
+    ¬ ElemErr qvars gates e := by
+  have hb : ∀ e' ∈ gates, BoundQubits qvars e' := fun e' he' => hw d hd qvars gates hs e' he'
+  intro h
+  cases h with
+  | @invalid pre e0 post vs q rest _ hq _ hnv =>
+    obtain ⟨v, hv, _⟩ := hb e0 (by simp) q (by rw [hq]; simp)
+    exact hnv v hv
+  | @undefined pre e0 post vs v rest _ hq _ hnm =>
+    obtain ⟨v', hv, hm⟩ := hb e0 (by simp) (.var v) (by rw [hq]; simp)
+    cases hv; exact hnm hm
 
 /-- **Totality**: every expansion either succeeds with the specified result or reports an error. -/
 theorem C20_total (defs : List (Def K)) (sel : String → Bool) (src : List (Instr K)) :
@@ -185,13 +201,13 @@ theorem C20_total (defs : List (Def K)) (sel : String → Bool) (src : List (Ins
 
 /-- **Cycles and arity or modifier misuse are reported as errors** (order-free form): the expansion fails
 iff some misuse — wrong parameter count, modifiers, a definition invoked inside its own expansion, wrong
-qubit count, a non-fixed qubit — is reachable from the body through selected invocations. -/
-theorem C20_error_iff_bad (defs : List (Def K)) (sel : String → Bool) (hw : WellFormed defs)
+qubit count, a non-fixed qubit, a malformed element of an unvalidated definition — is reachable from the body through selected invocations. -/
+theorem C20_error_iff_bad (defs : List (Def K)) (sel : String → Bool)
     (src : List (Instr K)) :
     (∃ e, expand defs sel src = .err e) ↔ Bad defs sel [] src := by
   constructor
   · rintro ⟨e, h⟩
-    exact errAt_bad ((C20_expand_err_iff defs sel hw src e).1 h)
+    exact errAt_bad ((C20_expand_err_iff defs sel src e).1 h)
   · intro hb
     rcases C20_total defs sel src with ⟨out, h⟩ | h
     · exact absurd ((C20_expand_ok_iff defs sel src out).1 h) (bad_not_expands hb out)
@@ -212,6 +228,7 @@ theorem C20_cyclic_error_sound (defs : List (Def K)) (sel : String → Bool)
     | modifiers => cases he
     | qubitCount => cases he
     | nonFixed => cases he
+    | elem _ _ _ _ _ _ _ hel => cases hel <;> cases he
   | inside _ _ _ _ _ ih =>
     obtain ⟨g, d, h1, h2, h3⟩ := ih he
     exact ⟨g, d, h1, h2, (List.prefix_append _ _).trans h3⟩
@@ -223,6 +240,47 @@ theorem C20_nothing_selected (defs : List (Def K)) (src : List (Instr K)) :
   apply C20_unselected_unchanged
   rintro i _ ⟨g, d, _, _, _, h⟩
   cases h
+
+/-- **Completeness against the stack-free specification**: whenever plain recursive substitution has a
+(finite) result, the enclosing-expansion bookkeeping never fires. -/
+theorem expandsPure_expands {defs : List (Def K)} {sel : String → Bool} {src out : List (Instr K)}
+    (h : ExpandsPure defs sel src out) : Expands defs sel [] src out := by
+  obtain ⟨n, hn⟩ := expandsPure_sized h
+  exact expandsPureN_expands hn [] (by simp)
+
+/-- **Substitution correctness against the stack-free relation, both directions.** -/
+theorem C20_expand_ok_iff_pure (defs : List (Def K)) (sel : String → Bool) (src out : List (Instr K)) :
+    expand defs sel src = .ok out ↔ ExpandsPure defs sel src out :=
+  ⟨C20_expand_sound defs sel src out, fun h => (C20_expand_ok_iff defs sel src out).2 (expandsPure_expands h)⟩
+
+/-- … hence: the expansion reports an error exactly when plain recursive substitution has no result, and
+that is exactly when some misuse or cycle is reachable (`Bad`). -/
+theorem C20_error_iff_no_pure (defs : List (Def K)) (sel : String → Bool) (src : List (Instr K)) :
+    (∃ e, expand defs sel src = .err e) ↔ ¬ ∃ out, ExpandsPure defs sel src out := by
+  constructor
+  · rintro ⟨e, he⟩ ⟨out, ho⟩
+    rw [(C20_expand_ok_iff_pure defs sel src out).2 ho] at he
+    cases he
+  · intro hn
+    rcases C20_total defs sel src with ⟨out, h⟩ | h
+    · exact absurd ⟨out, (C20_expand_ok_iff_pure defs sel src out).1 h⟩ hn
+    · exact h
+
+theorem C20_pure_iff_not_bad (defs : List (Def K)) (sel : String → Bool) (src : List (Instr K)) :
+    (∃ out, ExpandsPure defs sel src out) ↔ ¬ Bad defs sel [] src := by
+  rw [← C20_error_iff_bad, C20_error_iff_no_pure]
+  exact ⟨fun h hn => hn h, fun h => Classical.byContradiction h⟩
+
+/-- **The second Bool oracle decides the stack-free specification.** -/
+theorem C20_verifyPure_iff [DecidableEq K] (defs : List (Def K)) (sel : String → Bool) (src out : List (Instr K)) :
+    verifyPure defs sel (defs.map (·.name)) src out = some [] ↔ ExpandsPure defs sel src out := by
+  rw [verifyPure_iff defs sel _ src out [] ⟨fun n hn _ => hn, by simp⟩ []]
+  constructor
+  · rintro ⟨o, h1, h2⟩
+    simp at h1; subst h1
+    exact expands_pure h2
+  · intro h
+    exact ⟨out, by simp, expandsPure_expands h⟩
 
 /-! ### Non-vacuity: concrete instances (evaluated by the kernel) -/
 
@@ -268,6 +326,16 @@ example : expand cyc (fun _ => true) [.gate { name := "a", params := [], qubits 
 /-- the same cycle is harmless when `b` is not selected -/
 example : expand cyc (fun n => n == "a") [.gate { name := "a", params := [], qubits := [.fixed 0], mods := [] }]
     = .ok [.gate { name := "b", params := [], qubits := [.fixed 0], mods := [] }] := by decide
+private def g0 (n : String) (qs : List Qubit) : Gate Nat := { name := n, params := [], qubits := qs, mods := [] }
+/-- definitions that bypassed `try_new`: a fixed element qubit, an unbound qubit variable -/
+private def badFixed : List (Def Nat) :=
+  [ { name := "a", params := [], spec := .seq ["q"] [g0 "H" [.var "q", .fixed 0]] } ]
+private def badUnbound : List (Def Nat) :=
+  [ { name := "a", params := [], spec := .seq ["q"] [g0 "H" [.var "q"], g0 "X" [.var "r"]] } ]
+example : expand badFixed (fun _ => true) [.gate (g0 "a" [.fixed 5])] = .err (.invalidElemQubit (.fixed 0)) := by
+  decide
+example : expand badUnbound (fun _ => true) [.gate (g0 "a" [.fixed 5])] = .err (.undefinedElemQubit "r") := by
+  decide
 /-- `WellFormed` is satisfiable by these definitions -/
 example : WellFormed exDefs := by
   intro d hd qv gs hs e he q hq
